@@ -132,7 +132,10 @@ Definition new_reg (w : c2sw) (s : sel) (addr : bytes) (v6 : bool) : option reg 
                    | Some n => if n =? 0 then None else Some (be4 n)
                    | None => None
                    end in
-    let ov_ok := match ov with Some o => if v6 then blen o =? 16 else true | None => true end in
+    let ov_ok := match ov with
+                 | Some o => if v6 then (blen o =? 16) && negb (is_some (to4 o)) else true
+                 | None => true
+                 end in
     let ph := match ov with Some o => o | None => d_ip d end in
     if negb ov_ok then None
     else if negb (ip_len_ok addr) then None
